@@ -19,7 +19,7 @@ func init() {
 const chaosRule = "history = genesis (7-12 nodes incl. non-custodial ones, 3-5 apps, accounts) + mainnet-style bootstrap (governance upgrade txs: codec upgrade at 3, validator split at 6, all named features at 8) + 60-120 generated blocks with block-time steps 1s-4000s, 0-6 txs per block drawn from {send, node stake/edit-stake/begin-unstake/unjail by operator or output address or stranger, app stake/edit/unstake/transfer, DAO transfer/burn, parameter changes (MaxValidators, allocations, unstaking/jail durations, ...)}, missed-vote streaks that cross the downtime threshold, sporadic misses, fresh and stale double-sign evidence, rotating proposers; executed by the real application in a fresh OS process through InitChain/BeginBlock/DeliverTx/EndBlock/Commit with a fabricated block store and tx indexer; after every Commit the persisted KV stores are read and decoded (accounts, supply, node and app records, every index key, params)."
 
 func chainInvariantCheck(r *ev.Run, id string) {
-	n := r.N(16, 200)
+	n := r.N(24, 200)
 	blocks := r.N(100, 140)
 	r.Rule(chaosRule + " Invariant evaluated at every committed height of every history. Non-trivial history = the state events relevant to this property were observed (see event:* counters) and the node finished the script; distinct = digest of the script.")
 	r.Assume("fabricated-block driver follows Tendermint's ABCI call order and validator-update delay (DESIGN.md §8)")
